@@ -20,6 +20,13 @@ int sched(const Enabled& en);
 inline int sched() { return sched([] { return int(EN); }); }
 // the calling thread just yielded / slept (spin loop): deprioritised until somebody else moves
 void mark_yield();
+// directed path forcing: the calling logical thread's k-th scheduling point from now (k >= 1; typically inside library
+// code the client cannot instrument) is additionally blocked until `until()` is non-zero.  A gate that never opens shows
+// up as a deadlock verdict, so only use it in directed scripts whose gate is opened unconditionally by another thread.
+void gate_at(int k, const Enabled& until);
+// true while logical thread `tid` is parked at the scheduling point its gate applies to (lets another thread's
+// enabledness condition wait for "tid has reached that point")
+bool at_gate(int tid);
 
 // scheduler-made nondeterministic choice in [0,n); recorded for replay
 int choose(int n, const char* what);
